@@ -354,7 +354,7 @@ func ruleE3s(c *Ctx) {
 						if x.Op == token.MUL {
 							if fa, ok := x.X.(*ssa.FieldAddr); ok {
 								if tn, shared := declaredInSharedPkg(fa.X.Type()); shared {
-									if _, fresh := rootOf(fa.X).(*ssa.Alloc); !fresh {
+									if !freshObject(rootOf(fa.X)) {
 										if _, isSlice := x.Type().Underlying().(*types.Slice); isSlice {
 											src = tn + "." + fieldName(fa)
 										}
@@ -391,6 +391,14 @@ func ruleE3s(c *Ctx) {
 						if s := tainted[x.Call.Args[0]]; s != "" {
 							how, src = bi.Name(), s
 						}
+					} else if name := calleeName(x.Common()); inPlaceSliceFunc(name) && len(x.Call.Args) > 0 {
+						a0 := x.Call.Args[0]
+						if mi, ok := a0.(*ssa.MakeInterface); ok {
+							a0 = mi.X
+						}
+						if s := tainted[a0]; s != "" {
+							how, src = name, s
+						}
 					}
 				case *ssa.Store:
 					if ia, ok := x.Addr.(*ssa.IndexAddr); ok {
@@ -410,4 +418,39 @@ func ruleE3s(c *Ctx) {
 		}
 	}
 	c.ok("E3s", "functions scanned", "", fmt.Sprintf("%d in-place slice writes on shared objects", n))
+}
+
+
+// freshObject: allocated by this function and not a by-value copy of something passed in (a
+// shallow struct copy shares the backing arrays of its slice fields with the original).
+func freshObject(root ssa.Value) bool {
+	a, ok := root.(*ssa.Alloc)
+	if !ok {
+		return false
+	}
+	for _, r := range *a.Referrers() {
+		if st, ok := r.(*ssa.Store); ok && st.Addr == a {
+			switch v := st.Val.(type) {
+			case *ssa.Parameter:
+				return false
+			case *ssa.UnOp:
+				if v.Op == token.MUL {
+					if _, isAlloc := rootOf(v.X).(*ssa.Alloc); !isAlloc {
+						return false // *p copied into a local
+					}
+				}
+			}
+		}
+	}
+	return true
+}
+
+// inPlaceSliceFunc: library functions that rearrange or overwrite the elements of their first argument.
+func inPlaceSliceFunc(name string) bool {
+	for _, p := range []string{"slices.Delete", "slices.Insert", "slices.Sort", "slices.Reverse", "slices.Compact", "slices.Replace", "sort.Slice", "sort.Sort", "sort.Stable", "sort.Strings", "sort.Ints"} {
+		if strings.HasPrefix(name, p) {
+			return true
+		}
+	}
+	return false
 }
